@@ -384,6 +384,9 @@ fn c06_grl_rule_fires_by_table() -> (bool, String) {
                     _ => {}
                 }
                 // the same leaf under a negation and in a conjunction / disjunction with a leaf of known truth
+                if !matches!(op, "==" | ">=" | "<" | "contains") {
+                    continue;
+                }
                 for (c2, w2) in [
                     (format!("!({})", cond), !want),
                     (format!("{} && T.other == 1", cond), want),
@@ -405,11 +408,62 @@ fn c06_grl_rule_fires_by_table() -> (bool, String) {
     (false, format!("{} (GRL condition, fact) pairs: `T.x OP literal` for every literal of the pool that GRL can spell and that keeps its type when lowered (integers, non-integral floats, booleans, non-numeric strings), alone, negated, and-ed, or-ed; load_from_string + insert + fire_all", n))
 }
 
+// ------------------------------------------------------------------------------------------------ open findings (REPRODUCE on the current tree)
+// Not part of `witnesses()`: they reproduce on the unmodified repository, so registering them needs an entry in known_findings.json.
+// Both are about the LOWERING of a GRL literal into the alpha node (grl_loader.rs value_to_string -> alpha.rs parse_value_string: the
+// node keeps only the TEXT of the literal and re-reads it), observed through load_from_string + insert + fire_all.
+
+/// a quoted literal whose text looks like a number / boolean is re-read as that number / boolean: `T.x == "18"` is false of the
+/// string "18" and `T.x != "18"` is true of it
+fn c06_quoted_literal_loses_its_type() -> (bool, String) {
+    let s18 = V::S("18");
+    for (cond, x, want) in [
+        ("T.x != \"18\"", &s18, false),
+        ("T.x == \"18\"", &s18, true),
+        ("T.x startsWith \"1\"", &s18, true),
+        ("T.x == \"true\"", &V::S("true"), true),
+    ] {
+        match grl_fires(cond, Some(x)) {
+            Err(e) => return (true, e),
+            Ok(got) if got != want => {
+                return (true, format!("GRL rule `{}` {} for the fact T{{x: {:?}}} (one rule, insert, fire_all); the condition is {} of that fact's contents", cond, if got { "fired" } else { "did not fire" }, x, want))
+            }
+            _ => {}
+        }
+    }
+    (false, "quoted numeric / boolean literals compared with string facts of the same text".to_string())
+}
+
+/// a float literal with an integral value is printed as "18", re-read as Integer 18, and `==` is representation-sensitive:
+/// `T.x != 18.0` fires for the fact x = 18.0 (Float); `T.x == 18` does not fire for it although `T.x >= 18 && T.x <= 18` does
+fn c06_equality_is_representation_sensitive() -> (bool, String) {
+    let f18 = V::F(18.0);
+    for (cond, x, want) in [("T.x != 18.0", &f18, false), ("T.x == 18.0", &f18, true), ("T.x == 18", &f18, true), ("T.x >= 18 && T.x <= 18", &f18, true)] {
+        match grl_fires(cond, Some(x)) {
+            Err(e) => return (true, e),
+            Ok(got) if got != want => {
+                return (true, format!("GRL rule `{}` {} for the fact T{{x: {:?}}} (one rule, insert, fire_all); as numbers the condition is {}", cond, if got { "fired" } else { "did not fire" }, x, want))
+            }
+            _ => {}
+        }
+    }
+    (false, "== / != between a Float fact and a numeric literal of the same value".to_string())
+}
+
 pub fn witnesses() -> Vec<crate::W> {
     vec![
         ("c06_typed_compare_table", c06_typed_compare_table as fn() -> (bool, String)),
         ("c06_alpha_node_table_on_engine", c06_alpha_node_table_on_engine as fn() -> (bool, String)),
         ("c06_connective_nodes_on_engine", c06_connective_nodes_on_engine as fn() -> (bool, String)),
         ("c06_grl_rule_fires_by_table", c06_grl_rule_fires_by_table as fn() -> (bool, String)),
+    ]
+}
+
+/// see the section comment: register only together with known_findings.json entries of the same names
+#[allow(dead_code)]
+pub fn open_finding_witnesses() -> Vec<crate::W> {
+    vec![
+        ("c06_quoted_literal_loses_its_type", c06_quoted_literal_loses_its_type as fn() -> (bool, String)),
+        ("c06_equality_is_representation_sensitive", c06_equality_is_representation_sensitive as fn() -> (bool, String)),
     ]
 }
